@@ -21,6 +21,185 @@ ASSUMPTIONS = ["the pairs use only features verify() supports (no 'typedef int..
                "exception classes are compared, not messages"]
 
 
+INT_T = [('signed char', 1, 1), ('short', 2, 1), ('int', 4, 1), ('long long', 8, 1),
+         ('unsigned char', 1, 0), ('unsigned short', 2, 0), ('unsigned int', 4, 0),
+         ('uint64_t', 8, 0), ('int32_t', 4, 1), ('size_t', 8, 0)]
+
+
+def extras(seed):
+    """A second, richer declaration block (what the C12 generator lacks): structs
+    by value, pointer / array / string / function-pointer / variadic arguments,
+    partial structs, '...' constants and enums, unions, bitfields, opaque types,
+    macros declared as functions, array / pointer / struct globals, wchar_t,
+    long double.  Returns (cdef, C source, probes); a probe is
+    (label, function(ffi, lib) -> comparable value)."""
+    rnd = random.Random(seed ^ 0x33c33)
+    u = 'x%d' % (seed % 1000)
+    T1, T2, T3 = [rnd.choice(INT_T) for _ in range(3)]
+    k1, k2 = rnd.randint(1, 50), rnd.randint(-50, 50)
+    n = rnd.choice([2, 3, 5, 8])
+    bw1, bw2 = rnd.randint(1, 7), rnd.randint(1, 15)
+    def clit(big):
+        if big == -2 ** 63:
+            return '(-9223372036854775807LL-1)'
+        return '%dLL' % big if big < 2 ** 63 else '%dULL' % big
+    bigl = rnd.sample([2 ** 31 - 1, 2 ** 31, 2 ** 32 - 1, 2 ** 63 - 1, 2 ** 63, 2 ** 64 - 1,
+                       -2 ** 31, -2 ** 63, rnd.getrandbits(40), -2 ** 31 - 1, 2 ** 32], 4)
+    bigs, bigs2, bigs3, bigs4 = [clit(b) for b in bigl]
+    dbl = rnd.choice([0.5, -2.25, 1e10, 3.0])
+    src = """
+#include <stdarg.h>
+#include <string.h>
+#include <wchar.h>
+struct %(u)s_pt { %(T1)s a; %(T2)s b; };
+struct %(u)s_pt %(u)s_mk(%(T1)s a, %(T2)s b) { struct %(u)s_pt p; p.a = a; p.b = b; return p; }
+long long %(u)s_ptsum(struct %(u)s_pt p) { return (long long)p.a * %(k1)d + (long long)p.b; }
+void %(u)s_ptfill(struct %(u)s_pt *p, int v) { p->a = (%(T1)s)v; p->b = (%(T2)s)(v + 1); }
+typedef struct { char pad0; %(T3)s v; double pad1; short w; } %(u)s_part_t;
+%(T3)s %(u)s_part_get(%(u)s_part_t *p) { return p->v; }
+long long %(u)s_sum(%(T3)s *a, int n) { long long s = 0; int i; for (i = 0; i < n; i++) s += (long long)a[i] * (i + 1); return s; }
+size_t %(u)s_len(const char *s) { return strlen(s) + %(k1)d; }
+char *%(u)s_skip(char *s, int k) { return s + k; }
+int %(u)s_apply(int (*f)(int, int), int x) { return f(x, %(k2)d) + 1; }
+long long %(u)s_vsum(int n, ...) { va_list ap; long long s = 0; int i; va_start(ap, n); for (i = 0; i < n; i++) s += va_arg(ap, long long); va_end(ap); return s; }
+#define %(u)s_MADD(a, b) ((a) * %(k1)d + (b))
+#define %(u)s_KBIG %(bigs)s
+#define %(u)s_KBIG2 %(bigs2)s
+#define %(u)s_KBIG3 %(bigs3)s
+#define %(u)s_KSMALL %(k2)d
+static const double %(u)s_KD = %(dbl)r;
+enum %(u)s_en { %(u)s_EA = %(k2)d, %(u)s_EB, %(u)s_EC = %(k1)d + 100 };
+union %(u)s_un { %(T1)s i; double d; char c[%(n)d]; };
+int %(u)s_unsize(void) { return (int)sizeof(union %(u)s_un); }
+struct %(u)s_bf { unsigned int p : %(bw1)d; int q : %(bw2)d; %(T2)s tail; };
+int %(u)s_bfq(struct %(u)s_bf *s) { return s->q; }
+struct %(u)s_opq { int secret; };
+static struct %(u)s_opq %(u)s_theopq = { %(k1)d };
+struct %(u)s_opq *%(u)s_getopq(void) { return &%(u)s_theopq; }
+int %(u)s_useopq(struct %(u)s_opq *p) { return p->secret + 1; }
+%(T3)s %(u)s_garr[%(n)d] = { 1, 2 };
+const char *%(u)s_gstr = "hello-%(k1)d";
+struct %(u)s_pt %(u)s_gpt = { 3, 4 };
+int (*%(u)s_gfp)(int, int) = 0;
+static int %(u)s_addmul(int a, int b) { return a * 3 + b; }
+void %(u)s_setfp(void) { %(u)s_gfp = %(u)s_addmul; }
+size_t %(u)s_wlen(const wchar_t *w) { return wcslen(w); }
+long double %(u)s_ld(long double x) { return x * 2; }
+_Bool %(u)s_not(_Bool b) { return !b; }
+""" % {'u': u, 'T1': T1[0], 'T2': T2[0], 'T3': T3[0], 'k1': k1, 'k2': k2, 'n': n, 'bw1': bw1,
+       'bw2': bw2, 'bigs': bigs, 'bigs2': bigs2, 'bigs3': bigs3, 'dbl': dbl}
+    cdef = """
+struct %(u)s_pt { %(T1)s a; %(T2)s b; };
+struct %(u)s_pt %(u)s_mk(%(T1)s a, %(T2)s b);
+long long %(u)s_ptsum(struct %(u)s_pt p);
+void %(u)s_ptfill(struct %(u)s_pt *p, int v);
+typedef struct { %(T3)s v; short w; ...; } %(u)s_part_t;
+%(T3)s %(u)s_part_get(%(u)s_part_t *p);
+long long %(u)s_sum(%(T3)s *a, int n);
+size_t %(u)s_len(const char *s);
+char *%(u)s_skip(char *s, int k);
+int %(u)s_apply(int (*f)(int, int), int x);
+long long %(u)s_vsum(int n, ...);
+int %(u)s_MADD(int, int);
+#define %(u)s_KBIG ...
+#define %(u)s_KBIG2 ...
+#define %(u)s_KBIG3 ...
+#define %(u)s_KSMALL %(k2)d
+static const double %(u)s_KD;
+enum %(u)s_en { %(u)s_EA = %(k2)d, %(u)s_EB, %(u)s_EC = ... };
+union %(u)s_un { %(T1)s i; double d; char c[%(n)d]; };
+int %(u)s_unsize(void);
+struct %(u)s_bf { unsigned int p : %(bw1)d; int q : %(bw2)d; %(T2)s tail; };
+int %(u)s_bfq(struct %(u)s_bf *s);
+struct %(u)s_opq;
+struct %(u)s_opq *%(u)s_getopq(void);
+int %(u)s_useopq(struct %(u)s_opq *p);
+%(T3)s %(u)s_garr[%(n)d];
+const char *%(u)s_gstr;
+struct %(u)s_pt %(u)s_gpt;
+int (*%(u)s_gfp)(int, int);
+void %(u)s_setfp(void);
+size_t %(u)s_wlen(const wchar_t *w);
+long double %(u)s_ld(long double x);
+_Bool %(u)s_not(_Bool b);
+""" % {'u': u, 'T1': T1[0], 'T2': T2[0], 'T3': T3[0], 'k2': k2, 'n': n, 'bw1': bw1, 'bw2': bw2}
+
+    def rng_of(T):
+        return (-(1 << (8 * T[1] - 1)), (1 << (8 * T[1] - 1)) - 1) if T[2] else (0, (1 << 8 * T[1]) - 1)
+
+    def val(T, r):
+        lo, hi = rng_of(T)
+        return r.choice([lo, hi, 0, 1, r.randint(lo, hi)])
+    r = random.Random(seed ^ 0x7777)
+    a1, b1 = val(T1, r), val(T2, r)
+    over1 = rng_of(T1)[1] + 1
+    arr = [val(T3, r) for _ in range(n)]
+    vs = [r.randint(-2 ** 40, 2 ** 40) for _ in range(r.randint(0, 4))]
+    text = bytes(r.randrange(1, 256) for _ in range(r.randint(0, 12)))
+    x0 = r.randint(-1000, 1000)
+    P = []
+    g = lambda l, nm: getattr(l, u + '_' + nm)
+    P.append(('struct-by-value-return', lambda f, l: (lambda p: (p.a, p.b))(g(l, 'mk')(a1, b1))))
+    P.append(('struct-by-value-return-overflow', lambda f, l: g(l, 'mk')(over1, b1).a))
+    P.append(('struct-by-value-arg', lambda f, l: g(l, 'ptsum')(f.new('struct %s_pt *' % u, [a1, b1])[0])))
+    P.append(('struct-by-value-arg-wrong-type', lambda f, l: g(l, 'ptsum')(f.new('struct %s_pt *' % u))))
+    P.append(('struct-by-value-arg-dict', lambda f, l: g(l, 'ptsum')({'a': a1, 'b': b1})))
+    P.append(('struct-pointer-arg', lambda f, l: (lambda p: (g(l, 'ptfill')(p, x0 % 100), p.a, p.b))(f.new('struct %s_pt *' % u))))
+    P.append(('struct-layout', lambda f, l: (f.sizeof('struct %s_pt' % u), f.alignof('struct %s_pt' % u), f.offsetof('struct %s_pt' % u, 'b'))))
+    P.append(('partial-struct-layout', lambda f, l: (f.sizeof('%s_part_t' % u), f.offsetof('%s_part_t' % u, 'v'), f.offsetof('%s_part_t' % u, 'w'))))
+    P.append(('partial-struct-use', lambda f, l: (lambda p: g(l, 'part_get')(p))(f.new('%s_part_t *' % u, {'v': arr[0], 'w': 7}))))
+    P.append(('array-arg-list', lambda f, l: g(l, 'sum')(arr, n)))
+    P.append(('array-arg-cdata', lambda f, l: g(l, 'sum')(f.new('%s[]' % T3[0], arr), n)))
+    P.append(('array-arg-wrong-pointer-type', lambda f, l: g(l, 'sum')(f.new('double[]', 3), 3)))
+    P.append(('array-arg-out-of-range-item', lambda f, l: g(l, 'sum')([rng_of(T3)[1] + 1], 1)))
+    P.append(('array-arg-null', lambda f, l: g(l, 'sum')(f.NULL, 0)))
+    P.append(('array-arg-int', lambda f, l: g(l, 'sum')(0, 0)))
+    P.append(('string-arg-bytes', lambda f, l: g(l, 'len')(text)))
+    P.append(('string-arg-str', lambda f, l: g(l, 'len')('abc')))
+    P.append(('string-arg-cdata', lambda f, l: g(l, 'len')(f.new('char[]', text))))
+    P.append(('string-arg-none', lambda f, l: g(l, 'len')(None)))
+    P.append(('char-pointer-return', lambda f, l: (lambda b: f.string(g(l, 'skip')(b, 2)))(f.new('char[]', b'abcdef'))))
+    P.append(('char-pointer-arg-bytes-for-nonconst', lambda f, l: f.typeof(g(l, 'skip')(b'abcdef', 1)).cname))
+    P.append(('callback-arg', lambda f, l: g(l, 'apply')(f.callback('int(int, int)', lambda a, b: a * 2 - b), x0)))
+    P.append(('callback-arg-wrong-signature', lambda f, l: g(l, 'apply')(f.callback('int(int)', lambda a: a), x0)))
+    P.append(('callback-arg-python-function', lambda f, l: g(l, 'apply')(lambda a, b: a, x0)))
+    P.append(('variadic', lambda f, l: g(l, 'vsum')(len(vs), *[f.cast('long long', v) for v in vs])))
+    P.append(('variadic-plain-int-arg', lambda f, l: g(l, 'vsum')(1, 5)))
+    P.append(('variadic-missing-fixed', lambda f, l: g(l, 'vsum')()))
+    P.append(('macro-as-function', lambda f, l: g(l, 'MADD')(x0, 3)))
+    P.append(('macro-as-function-overflow', lambda f, l: g(l, 'MADD')(2 ** 31, 3)))
+    P.append(('dotdotdot-constant', lambda f, l: (g(l, 'KBIG'), g(l, 'KBIG2'), g(l, 'KBIG3'), type(g(l, 'KBIG')).__name__)))
+    P.append(('int-constant', lambda f, l: g(l, 'KSMALL')))
+    P.append(('double-constant', lambda f, l: g(l, 'KD')))
+    P.append(('enum-dotdotdot', lambda f, l: (g(l, 'EA'), g(l, 'EB'), g(l, 'EC'), sorted(f.typeof('enum %s_en' % u).relements.items()), f.sizeof('enum %s_en' % u))))
+    P.append(('union', lambda f, l: (f.sizeof('union %s_un' % u), g(l, 'unsize')(), f.offsetof('union %s_un' % u, 'c'))))
+    P.append(('bitfield-struct', lambda f, l: (lambda p: (f.sizeof('struct %s_bf' % u), g(l, 'bfq')(p), p.p, p.tail))(f.new('struct %s_bf *' % u, {'p': 1, 'q': -1, 'tail': b1}))))
+    P.append(('bitfield-overflow', lambda f, l: f.new('struct %s_bf *' % u, {'p': 1 << bw1})))
+    P.append(('opaque-struct', lambda f, l: (lambda p: (g(l, 'useopq')(p), f.typeof(p).cname))(g(l, 'getopq')())))
+    P.append(('opaque-struct-wrong-pointer', lambda f, l: g(l, 'useopq')(f.new('int *'))))
+    P.append(('global-array', lambda f, l: (lambda a: (len(a), a[0], a[1], a[n - 1], f.typeof(a).cname))(g(l, 'garr'))))
+    P.append(('global-array-write', lambda f, l: (lambda a: (a.__setitem__(n - 1, arr[0]), g(l, 'sum')(a, n)))(g(l, 'garr'))))
+    P.append(('global-array-assign', lambda f, l: setattr(l, u + '_garr', [0] * n)))
+    P.append(('global-array-index-out-of-range', lambda f, l: g(l, 'garr')[n]))
+    P.append(('global-string', lambda f, l: f.string(g(l, 'gstr'))))
+    P.append(('global-struct', lambda f, l: (lambda s_: (s_.a, s_.b, f.typeof(s_).cname))(g(l, 'gpt'))))
+    P.append(('global-struct-write', lambda f, l: (setattr(g(l, 'gpt'), 'a', 9), g(l, 'ptsum')(g(l, 'gpt')), setattr(g(l, 'gpt'), 'a', 3))[1]))
+    P.append(('global-function-pointer', lambda f, l: (g(l, 'gfp') == f.NULL, g(l, 'setfp')(), g(l, 'gfp')(5, 6), f.typeof(g(l, 'gfp')).cname)))
+    # not probed (outside the statement, and the verify() library is a plain Python
+    # object): ffi.addressof(lib, name), assigning to a function / unknown attribute,
+    # the error class of sizeof(<opaque struct>)
+    P.append(('global-missing', lambda f, l: getattr(l, u + '_nonexistent')))
+    P.append(('wchar-arg', lambda f, l: g(l, 'wlen')(u'h\u1234llo')))
+    P.append(('wchar-arg-bytes', lambda f, l: g(l, 'wlen')(b'abc')))
+    P.append(('long-double', lambda f, l: float(g(l, 'ld')(1.25))))
+    P.append(('long-double-type', lambda f, l: f.typeof(g(l, 'ld')(1.25)).cname))
+    P.append(('bool', lambda f, l: (g(l, 'not')(True), g(l, 'not')(0))))
+    P.append(('bool-out-of-range', lambda f, l: g(l, 'not')(2)))
+    P.append(('too-many-args', lambda f, l: g(l, 'not')(True, False)))
+    P.append(('keyword-args', lambda f, l: g(l, 'not')(b=True)))
+    return cdef, src, P
+
+
 def generate(ctx):
     rng = ctx.rng('gen')
     n = ctx.scale(8, 120)
@@ -51,8 +230,9 @@ def child_case(st, case):
     from cffi import FFI
     rep = core.ChildRep()
     items = c12.gen_source(case['seed'])
-    src = c12.c_source(items)
-    cdef = c12.cdef_text(items)
+    xcdef, xsrc, probes = extras(case['seed'])
+    src = c12.c_source(items) + xsrc
+    cdef = c12.cdef_text(items) + xcdef
     wd = st['wd']
     libs = {}
     try:
@@ -151,6 +331,20 @@ def child_case(st, case):
             rep.case((kind, n, T, v))
             rep.stat('globals')
         compare(rep, res, '%s %s' % (kind, it['name']), kind, case['seed'])
+    for label, fn in probes:
+        res = {}
+        for k, (f, l) in libs.items():
+            try:
+                v = fn(f, l)
+                res[k] = ('ok', type(v).__name__, v if not hasattr(v, '__cffi__') and
+                          'CData' not in type(v).__mro__[-2].__name__ else repr(v)[:40])
+            except Exception as e:
+                res[k] = ('exc', type(e).__name__)
+        rep.case(('extra', label, repr(res['set_source'])[:80]),
+                 sample={'probe': label, 'set_source': repr(res['set_source'])[:80]})
+        rep.stat('extra_probes')
+        rep.stat('extra_probe_' + ('ok' if res['set_source'][0] == 'ok' else 'raises'))
+        compare(rep, res, 'probe %s' % label, 'extra:' + label, case['seed'])
     return rep.result()
 
 
